@@ -12,7 +12,7 @@ Theorem cash_verify_detects hrp d1 d2 : length d1 = length d2 -> (length d1 <= c
 Proof.
   intros Hl HL H1 H2 Hh V1. destruct (cash_verify_checksum hrp d2) eqn:V2; [exfalso|reflexivity].
   apply cash_verify_iff in V1, V2. unfold polymod_raw in V1, V2. rewrite pm_app in V1, V2.
-  refine (detects_4 cash_gen cash_pm_shift cash_pm_symbits cash_gens_small cash_low_indep cash_window
+  refine (detects_4 cash_gen cash_pm_shift cash_pm_symbits cash_gens_small cash_low_indep cash_mul cash_window
             cash_certificate _ d1 d2 Hl HL H1 H2 Hh _). rewrite V1, V2. reflexivity.
 Qed.
 
